@@ -748,6 +748,9 @@ def call_ext(it, dotted, args, kwargs):
                 f = v.as_fraction()
                 if f is not None:
                     return int(f)
+                c = _concretize_floordiv(it, v)
+                if c is not None:
+                    return c
                 return _IntOf(v)
             if isinstance(v, _FlagVal):
                 return _IntOf(v)
@@ -1094,6 +1097,35 @@ def _minmax(it, which, args, kwargs):
         if it.truth(r):
             best, bk = x, xk
     return best
+
+
+def _concretize_floordiv(it, v):
+    """int(a // b) for a symbolic a and a positive constant b: decided by forking on a < b*j for a few j (small quotients only)"""
+    from .poly import atom_of
+    if not v.is_poly() or len(v.num.t) != 1:
+        return None
+    (mono, coef), = v.num.t.items()
+    if coef != (1, 0) or len(mono) != 1 or mono[0][1] != 1:
+        return None
+    at = atom_of(mono[0][0])
+    if at.fn != 'floordiv':
+        return None
+    b = at.arg.subst({'__sep__': Rat.const(0)})
+    a = at.arg.subst({'__sep__': Rat.const(1)}) - b
+    fb = b.as_fraction() if b.is_const() else None
+    if fb is None or fb <= 0:
+        return None
+    nonneg = False
+    if a.is_poly() and len(a.num.t) == 1:
+        (m2, c2), = a.num.t.items()
+        if len(m2) == 1 and c2[1] == 0 and c2[0] > 0 and atom_of(m2[0][0]).fn in ('sqrt', 'abs'):
+            nonneg = True           # |x| (normal form sqrt(x^2)) is never negative
+    if not nonneg and it.truth(it.compare_zero(a, 'lt')):
+        raise Undecidable('floor division of a negative symbolic value')
+    for j in range(1, 5):
+        if it.truth(it.compare_zero(a - fb * j, 'lt')):
+            return j - 1
+    raise Undecidable('floor division with a large symbolic quotient')
 
 
 def _keyval(it, key, x):
